@@ -736,7 +736,10 @@ pub fn random_project(rng: &mut Rng, nfiles: usize, adversarial: bool, externs: 
     let mut lifetime_names: Vec<String> = Vec::new();
     for t in 0..ntypes {
         // stems include names ending in `Schema` / `Params`-like words and names of well-known std types used as *user* types
-        let name = if rng.chance(1, 6) {
+        let name = if t == 0 && rng.chance(1, 2) {
+            // the first type often carries the name of a well-known external type (a qualified mapping key may end in it)
+            (*rng.pick(&["Duration", "Path", "Value"])).to_string()
+        } else if rng.chance(1, 6) {
             (*rng.pick(&["Duration", "Duration", "Duration", "Path", "Path", "Value", "Value", "TableSchema", "Path", "PathBuf", "Duration", "Value", "Params", "Channel0", "Result0", "OptionLike", "設定", "用户", "Ünit", "Ωmega", "MapRegion", "RecordingInfo", "Mapper", "Records", "PromiseLike", "ArrayBuf", "Rgb", "RGB", "Vector3", "VecStats", "HashSetLike", "BoxedValue", "ResultCode", "Sensor_Reading", "snake_type", "HTTPServer"])).to_string() + if t % 2 == 0 { "" } else { "X" }
         } else {
             format!("{}{}", rng.pick(&["User", "Order", "Item", "Config", "Event", "Status", "Mode", "DbConfig", "AppUser", "SubItem", "Sensor_Reading", "HTTPConn"]), t)
